@@ -2327,7 +2327,7 @@ impl<T: PPGEvaluatorStrategy> PPGEvaluator<T> {
                                     "\tdownstream required {}, setting upstream edges to 'required'",
                                     jobs[node_idx as usize].job_id
                                 );
-                                Self::set_upstream_edges(dag, node_idx, Required::Yes);
+                                Self::set_upstream_edges_new_gen(dag, node_idx, Required::Yes, gen);
                                 Self::reconsider_ephemeral_upstreams( // which is lazy.
                                     dag,
                                     jobs,
@@ -2348,7 +2348,7 @@ impl<T: PPGEvaluatorStrategy> PPGEvaluator<T> {
                                     "\tNo downstream required {}, setting upstream edges to 'not required'",
                                     jobs[node_idx as usize].job_id
                                 );
-                                Self::set_upstream_edges(dag, node_idx, Required::No);
+                                Self::set_upstream_edges_new_gen(dag, node_idx, Required::No, gen);
                                 //
                                 Self::reconsider_ephemeral_upstreams(
                                     dag,
@@ -2623,6 +2623,24 @@ impl<T: PPGEvaluatorStrategy> PPGEvaluator<T> {
             .collect();
         for upstream_idx in upstreams {
             (dag.edge_weight_mut(upstream_idx, node_idx).unwrap()).required = weight
+        }
+    }
+
+    /// set_upstream_edges for decisions taken late (while signals are being processed):
+    /// the upstreams decide on these flags, so if one changed, reconsidering them
+    /// must not be dropped as 'already considered in this generation'.
+    fn set_upstream_edges_new_gen(
+        dag: &mut GraphType,
+        node_idx: NodeIndex,
+        weight: Required,
+        gen: &mut Generation,
+    ) {
+        let changed = dag
+            .edges_directed(node_idx, Direction::Incoming)
+            .any(|(_, _, edge)| edge.required != weight);
+        Self::set_upstream_edges(dag, node_idx, weight);
+        if changed {
+            gen.advance();
         }
     }
 
